@@ -22,6 +22,18 @@ CHECKS = {
   "exhaustive enumeration of (W) crate-written files over writer histories x codecs x schemas x user-metadata variants, taken apart by an independent parser that checks magic, metadata keys and values, avro.schema = schema.json(), spec codec names, sync markers, per-block count/size and codec framing (raw deflate via libflate, snappy + big-endian CRC-32 of the uncompressed data); (R) reference-written files over all block partitionings incl. 0-object blocks, all key orders of <= 4 metadata keys, map layouts with negative counts, avro.codec absent, read by the real Reader; thorough adds apache-avro as second implementation in both directions",
   "trusted: vmodel container writer/parser; apache-avro 0.17 (thorough); bounds: <= 4 (quick) / <= 6 (thorough) values per file, whole-buffer readers only (small-refill readers are C05/C11)",
   "small-scope exhaustive enumeration of files against an independent container parser/writer", "DESIGN.md §4 C06"),
+ "C07": ("model_checking",
+  "small-scope exhaustive enumeration of schema ASTs (all ASTs of a grammar over record/enum/fixed with <= 3 (quick) / 4 (thorough) named types in namespaces {null, a, a.b, b} and names X,Y,Z,W, edges through the wrappers Id/array/map/[null,T]/[T,int]/nested, references to any earlier or enclosing type incl. recursion and shadowing, plus 79 hand-written ASTs with every logical type) x JSON spellings (per-site product of name spellings - dotted fullname / name+namespace / inherited / contradicting namespace / \"namespace\":\"\" - x reference spellings, primitives as string or object, attribute orders, extra attributes, whitespace, scale omitted) x forward-reference variants; oracle: parse Ok, node graph bisimilar to the AST with every reference landing on the node index of its definition, hooked canonical form = reference PCF; invalid documents (single AST edits and JSON edits: unknown / wrong-namespace reference, duplicate definition, missing required attribute, complex type as bare string, unconditional record cycle direct / through 1 / 2 records) must be Err; every document is cross-checked against the reference resolver first",
+  "trusted: vmodel AST/spelling/resolver/PCF; hook SchemaMut::verif_canonical_form (H1); bounds as stated (the full spelling product only for <= 2 named types)",
+  "small-scope exhaustive enumeration of ASTs x spellings against a reference resolver (bisimulation oracle)", "DESIGN.md §4 C07"),
+ "C08": ("model_checking",
+  "for every valid AST and spelling of C07: SchemaMut fingerprint = frozen fingerprint = LE64(CRC-64-AVRO(hooked canonical text)), hooked text = reference PCF, hence constant across spellings; all distinct canonical forms have distinct fingerprints; difference pairs: 10 kinds of PCF-changing single edits must change the fingerprint, adding a logical type must not; programmatic graphs of C09; the checksum step is checked against the bit-serial definition on the 73 basis vectors, all 256 table entries, GF(2)-linearity of the table, additivity on all 73^2 basis pairs (which determines all 2^64 x 256 (state, byte) pairs by linearity) and, independently, on every (state, byte) with state < 2^16",
+  "trusted: vmodel PCF and bit-serial CRC-64-AVRO; hooks H1, H2 (a hook-free variant drives characters through type names); the linearity argument of DESIGN.md §4 C08",
+  "small-scope exhaustive enumeration against a reference model + exhaustive check of a GF(2) basis of the checksum step", "DESIGN.md §4 C08"),
+ "C09": ("model_checking",
+  "(a) every valid and forward-reference document of C07: Schema::json() = SchemaMut->freeze->json() = the original document minified, compared with an own ordered JSON reader (key order preserved); (b) every programmatically built graph: all node vectors of <= 3 nodes (quick; 4-5 thorough with restrictions) over int/string/array/map/union/record(1-2 fields)/enum/fixed/logical variants with EVERY assignment of in-range keys (all DAG sharings, all cycles), unique fullnames, all namespace arrangements over 4 namespaces: graphs whose cycles all pass through a named node must render, re-parse (reference resolver and the crate's parser) to a bisimilar graph with the same fingerprint and freeze Ok with the same text; graphs with a cycle through unnamed nodes only must give Err from both to_string and freeze; (c) edited graphs (rename, add field) judged like (b); cyclic graphs render in worker subprocesses",
+  "trusted: vmodel resolver (leading-dot references allowed), PCF, CRC; bounds as stated",
+  "small-scope exhaustive enumeration of node graphs (all key assignments) against a reference resolver", "DESIGN.md §4 C09"),
  "C13": ("model_checking",
   "SAE: the serialization itself is the choice tree - at every record occurrence and step the driver picks any not-yet-presented field (all n! orders, nested occurrences independently), end (all omission subsets) or once per run an unknown / duplicate field at every position, in struct / map-entry / map-split-key-value styles, over all vectors of <= 4 (thorough 5) flat field types and families with nested records, arrays of records, nullable records; oracle: Ok bytes = reference encoding in schema order with omitted nullable fields as null, injections => Err, never a panic; HIST: the real DatumSerializer's serialize_struct state machine driven one call at a time with a shared-handle sink, after every serialize_field the bytes emitted so far must be exactly the encodings of fields 0..j-1 (j = smallest index not yet presented)",
   "trusted: vmodel encoder; bounds: records of <= 4/5 fields, <= 2-3 nested levels; a handle that returned Err is not used further (well-behaved Serialize)",
